@@ -1,8 +1,8 @@
 SPECIFICATION Spec
 CONSTANTS
   NA = 2
-  MaxNonce = 2
-  Prices <- P123
+  MaxNonce = 1
+  Prices <- P12
   InitBal <- BalAll3
   BalChoices <- BalSet2
   BodyPrices <- P2
@@ -11,17 +11,17 @@ CONSTANTS
   MaxReorg = 1
   Floors <- F2
   AccountSlots = 1
-  GlobalSlots = 2
-  AccountQueue = 2
-  GlobalQueue = 2
+  GlobalSlots = 1
+  AccountQueue = 1
+  GlobalQueue = 1
   PriceBump = 60
-  MaxOps = 3
+  MaxOps = 2
   ChanCap = 1
   Fused = FALSE
   EvictAllOnly = FALSE
-  KeepHist = TRUE
+  KeepHist = FALSE
 VIEW view
-INVARIANTS TypeOK PendingQueueDisjoint IndexesAgree PendingContiguous CapacityRespected
-           PendingContiguousFromStateNonce PendingAffordable PendingNonceAgrees LimitsRespected
-PROPERTIES ReplacementNeedsBump
+INVARIANTS TypeOK PendingQueueDisjoint IndexesAgree CapacityRespected
+           PendingStartsAtStateNonce PendingAffordable PendingNonceAgrees LimitsRespected
+PROPERTIES ReplacementNeedsBump HolesOnlyFromRefusedReinject
 CHECK_DEADLOCK TRUE
